@@ -30,6 +30,8 @@
 (*   fwd_n    distance of the stack's forward / link poses from the model   *)
 (*   lim_reported  Kinematics::constraints() of the stack equals the limits     *)
 (*            given to the innermost robot (or none)                       *)
+(*   rep_prad distance (1e-12 rad) of the continuation answers from whole-turn   *)
+(*            shifts of the plain solutions they stand for                      *)
 (*   twin_shift5  2 * sign5 * offset5 (AU): the wrist twin negates the     *)
 (*            geometric J5                                                 *)
 (***************************************************************************)
@@ -110,6 +112,10 @@ Ordered(c) ==
     \cup (IF \E k \in 1..Len(c.plain) : ~\E i \in 1..Len(qs) :
                 IF FiveDof(c) THEN SameMod5(qs[i], c.plain[k]) ELSE SameMod(qs[i], c.plain[k])
           THEN {"C04:plain-solution-dropped"} ELSE {})
+    \* a representative differs from the plain solution by whole turns and by nothing else (c.rep_prad: the largest
+    \* remainder, in 1e-12 rad, over the answers that are plain solutions to 1e-5 rad; away from the wrist singularity,
+    \* where continuation does not re-distribute J4 / J6)
+    \cup (IF c.truth.wrist_ok /\ c.rep_prad > 1000 THEN {"C04:not-a-whole-turn-representative-of-the-plain-solution"} ELSE {})
     \* (the documented cost is the distance to previous only when the weight is 0)
     \cup (IF c.truth.known /\ c.truth.realised_by_prev /\ c.truth.wrist_ok /\ c.prev # <<>> /\ c.w16 = 0 /\
              (~c.lim \/ (OnArcVec(c.from, c.to, c.prev, N_AU) /\ EndDistVec(c.from, c.to, c.prev, N_AU) >= BandLim)) /\
